@@ -1,0 +1,41 @@
+//go:build verif
+
+package bcrypt
+
+// Contracts for govc (/verif). Comments only.
+//
+// Parsing of a stored hash ($2<minor>$<cost>$<22 salt chars><31 hash chars>): no byte string makes the
+// parser index out of range; the decoded cost is within [MinCost, MaxCost] whenever no error is returned.
+
+//@ func checkCost
+//@ props C17
+//@ ensures iff(result == nil, 4 <= cost && cost <= 31)
+
+//@ func (*hashed).decodeVersion
+//@ props C17
+//@ requires len(sbytes) >= 3
+//@ modifies p.major
+//@ modifies p.minor
+//@ ensures implies(result1 == nil, (result0 == 3 || result0 == 4) && sbytes[0] == '$' && sbytes[1] <= '2' && p.major == sbytes[1])
+//@ ensures implies(result1 == nil, iff(result0 == 3, sbytes[2] == '$')) && implies(result1 == nil && result0 == 4, p.minor == sbytes[2])
+//@ ensures iff(result1 != nil, sbytes[0] != '$' || sbytes[1] > '2')
+
+//@ func (*hashed).decodeCost
+//@ props C17
+//@ requires len(sbytes) >= 2
+//@ modifies p.cost
+//@ ensures implies(result1 == nil, result0 == 3 && 4 <= p.cost && p.cost <= 31)
+//@ ensures implies(48 <= sbytes[0] && sbytes[0] <= 57 && 48 <= sbytes[1] && sbytes[1] <= 57 && 4 <= 10 * (sbytes[0] - 48) + (sbytes[1] - 48) && 10 * (sbytes[0] - 48) + (sbytes[1] - 48) <= 31, result1 == nil && p.cost == 10 * (sbytes[0] - 48) + (sbytes[1] - 48))
+
+//@ func newFromHash
+//@ props C17
+//@ assume_global ErrHashTooShort != nil
+//@ ensures implies(len(hashedSecret) < 59, result1 != nil)
+//@ ensures implies(result1 == nil, result0 != nil && 4 <= result0.cost && result0.cost <= 31 && len(result0.salt) == 22 && cap(result0.salt) == 24)
+//@ ensures implies(result1 == nil, len(result0.hash) == len(hashedSecret) - 22 - 3 - ite(hashedSecret[2] == '$', 3, 4))
+//@ ensures implies(result1 != nil, result0 == nil)
+//@ canary ensures result1 != nil
+
+//@ func Cost
+//@ props C17
+//@ ensures implies(result1 == nil, 4 <= result0 && result0 <= 31)
